@@ -94,6 +94,9 @@ func (e *End) Cut() {
 // InFlight reports bytes written by this end that the peer has not read.
 func (e *End) InFlight() int { return len(e.out.buf) }
 
+// Broken reports whether the peer has closed its end or the connection was cut.
+func (e *End) Broken() bool { return e.peer.closed || e.in.cut || e.out.cut }
+
 // IsClosed reports whether Close was called on this end.
 func (e *End) IsClosed() bool { return e.closed }
 
